@@ -696,7 +696,7 @@ def run(tier, seed, rep):
                     for lat in ENV_LATENCY:
                         ejobs.append((cfg, sid, transport, ka, lat, 0, seed))
                     if transport == 'udp' or tier == 'thorough':
-                        for code in (3, 4, 6):
+                        for code in (1, 2, 3, 4, 5, 6, 7, 8, 10, 11, 0x55):
                             ejobs.append((cfg, sid, transport, ka, 0.001, code, seed))
     ntwo = 0
     for n, res in pmap(job_two_objects, [(kinds, (a, b), tr) for tr in ('tcp', 'udp') for kinds in (('ET+r1', 'ET+r1'), ('ET+r1', 'ET745+r1'), ('DT+r1', 'ET'))
